@@ -147,7 +147,7 @@ class Api:
         r, st_ok = self.fresh_obj(result_prefix, st1.assume(st1.exc == 0) if False else st1)
         out += k_ok(r, st_ok)
         e = self.cx.fresh("exc", INT)
-        st_err = st1.assume(e >= 1).with_exc(e)
+        st_err = st1.assume(e >= 1).with_exc(e).gset("last_call_exc", e)
         out += k_err(st_err)
         return out
 
@@ -240,11 +240,11 @@ class Api:
             s1 = self.havoc(s, "PyFloat_AsDouble")
             v = z3.Function("as_double_result", Obj, INT, F64)(o, z3.IntVal(self.epoch))
             ok = z3.Function("as_double_ok", Obj, INT, z3.BoolSort())(o, z3.IntVal(self.epoch))
-            out += self.cx.branch(s1, z3.And(has_proto, ok), lambda t: k(v, t), lambda t: [])
+            out += self.cx.branch(s1, z3.And(has_proto, ok), lambda t: k(v, t.log(("proto", "float", o, True, v, None))), lambda t: [])
             e = self.cx.fresh("exc", INT)
             s_err = s1.assume(z3.Or(z3.Not(has_proto), z3.Not(ok)), e >= 1, z3.Implies(z3.Not(has_proto), e == EXC["TypeError"]))
             if self.cx.feasible(s_err):
-                out += k(z3.FPVal(-1.0, F64), s_err.with_exc(e))
+                out += k(z3.FPVal(-1.0, F64), s_err.with_exc(e).log(("proto", "float", o, False, None, e)))
             return out
         return self.cx.branch(st, is_inst(o, "PyFloat_Type"), exact, other)
 
@@ -401,10 +401,11 @@ def _py_number(name, exact_type=None):
         facts = [is_inst(r, "PyLong_Type")]
         if exact_type:
             facts.append(is_exact(r, exact_type))
-        out += k(r, s_ok.assume(*facts))
+        what = "index" if name == "PyNumber_Index" else "int"
+        out += k(r, s_ok.assume(*facts).log(("proto", what, o, True, r, None)))
         e = self.cx.fresh("exc", INT)
         has = z3.Function("has_index_protocol", Obj, z3.BoolSort())(o)
-        out += k(NULL, s1.assume(e >= 1, z3.Implies(z3.Not(has), e == EXC["TypeError"])).with_exc(e))
+        out += k(NULL, s1.assume(e >= 1, z3.Implies(z3.Not(has), e == EXC["TypeError"])).with_exc(e).log(("proto", what, o, False, None, e)))
         return out
     return f
 
